@@ -1636,3 +1636,41 @@ def rule_predfamily(ctx) -> RuleResult:
                        "object into its name: for func=flox.aggregations.max_ it answers False, so e.g. bool data reduced with the object come back int64 where "
                        "func='max' returns bool")
     return res
+
+
+# ---------------------------------------------------------------------------------------------
+# R-SCANMISSING (C10, C19): the scan entry point refuses missing labels for the kernels that have no slot for them.
+# Missing labels are coded -1.  The fill kernels keep -1 as a group of its own; the cumulative-sum kernel (numpy_groupies) rejects negative
+# codes -- in memory with its own "negative indices not supported", on a chunked array with an IndexError from the carried state of a block
+# that holds only missing labels.  groupby_scan must therefore refuse them itself: an `if … (codes == -1) …: raise ValueError/NotImplementedError`
+# that names the cumulative kernels and dominates both the eager kernel call and the graph constructor.
+def rule_scanmissing(ctx) -> RuleResult:
+    res = RuleResult("R-SCANMISSING", "missing labels are refused up front for scans whose kernel has no slot for the -1 code", min_instances=1)
+    from ..cfg import CFG, node_exprs
+    f = ctx.prog.func("core.groupby_scan")
+    cfg = CFG(f)
+    dom = cfg.dominators()
+    guards = []
+    for st in walk_own(f.node):
+        if isinstance(st, ast.If) and any(isinstance(b, ast.Raise) for b in st.body):
+            t = norm(st.test)
+            if "== -1" in t and ("cumsum" in t):
+                tn = next((n for n in cfg.nodes if n.kind == "test" and n.ast is not None and any(n.ast is x for x in ast.walk(st.test))), None)
+                if tn is not None:
+                    guards.append((tn, st))
+    sinks = []
+    for n in cfg.nodes:
+        for e in node_exprs(n):
+            for c in ast.walk(e):
+                if isinstance(c, ast.Call) and norm(c.func) in ("chunk_scan", "dask_groupby_scan"):
+                    sinks.append((n, c))
+    if not sinks:
+        raise AnalysisError("groupby_scan: neither chunk_scan nor dask_groupby_scan is called (anchor)")
+    for n, c in sinks:
+        ok = [norm(st.test)[:60] for tn, st in guards if tn.id in dom.get(n.id, ())]
+        res.inst(f"groupby_scan: {norm(c.func)}(…) dominated by a refusal of -1 codes for the cumulative kernels: {ok[:1] or False}", f"sink|{norm(c.func)}")
+        if not ok:
+            res.report(f"core.groupby_scan|missing-labels-reach-cumsum|{norm(c.func)}", f.where(c), f.qualname,
+                       f"'{norm(c.func)}(…)' is reached with labels that may contain the missing code -1 for func='nancumsum': numpy_groupies rejects negative codes "
+                       "(its own ValueError in memory, an IndexError from the carried state of an all-missing block on a chunked array) instead of a refusal by flox")
+    return res
